@@ -192,6 +192,42 @@ func coreSuite() []modelSpec {
 		}
 	}
 	s = append(s, genSpecs("operator over leaf", wf)...)
+	// the shapes the front end builds for the lexical idioms of a grammar — negated class,
+	// class, case-insensitive literal, string literal, quoted string — alone, under every
+	// operator and next to a sibling: an emitter that recognises one of these *shapes* (to
+	// emit a scan loop, a table lookup, …) is exercised on exactly what it looks for
+	{
+		ch := func(c string) *mexpr { return &mexpr{Op: "char", S: c} }
+		rg := func(b string) *mexpr { return &mexpr{Op: "range", S: b} }
+		idioms := []func() *mexpr{
+			func() *mexpr { return me("seq", me("not", ch("a")), me("dot")) },                            // [^a]
+			func() *mexpr { return me("seq", me("not", rg("bd")), me("dot")) },                           // [^b-d]
+			func() *mexpr { return me("seq", me("not", me("alt", ch("a"), rg("bd"))), me("dot")) },       // [^ab-d]
+			func() *mexpr { return me("alt", ch("a"), rg("bd"), ch("x")) },                               // [ab-dx]
+			func() *mexpr { return me("seq", me("alt", ch("a"), ch("A")), me("alt", ch("b"), ch("B"))) }, // "ab"
+			func() *mexpr { return me("seq", ch("a"), ch("b"), ch("a")) },                                // 'aba'
+		}
+		var ix []*mexpr
+		for _, id := range idioms {
+			ix = append(ix, id())
+			for _, u := range unaryOps {
+				ix = append(ix, me(u, id()))
+			}
+			ix = append(ix, me("seq", id(), me("e")), me("alt", id(), me("e")), me("seq", me("star", id()), ch("a")), me("seq", me("plus", id()), me("e")))
+		}
+		// [^a]* . and [^ab-d]+ . : the idiom next to the terminal it is built from
+		ix = append(ix, me("seq", me("star", me("seq", me("not", ch("a")), me("dot"))), me("dot")),
+			me("seq", me("plus", me("seq", me("not", me("alt", ch("a"), rg("bd"))), me("dot"))), me("dot")))
+		// a quoted string: 'a' [^a]* 'a'
+		ix = append(ix, me("seq", ch("a"), me("star", me("seq", me("not", ch("a")), me("dot"))), ch("a")))
+		var wfi []*mexpr
+		for _, x := range ix {
+			if x.wellFormed() {
+				wfi = append(wfi, x)
+			}
+		}
+		s = append(s, genSpecs("lexical idiom", wfi)...)
+	}
 	return s
 }
 
